@@ -649,7 +649,7 @@ def short_page_fact():
 # ---------------------------------------------------------------- concrete corpus (model-guided replay)
 PRE = ["", "See ", "Foo v. Bar, ", "Foo\tv. Bar, ", "(Foo v. Bar, ", "x (Foo v. Bar, ", "Bar, ", "Nobelman at 332, ", "citing ", "see ", "x; ", "In re Foo, ", "Foo v. Bar (1999) ", "Foo v. Bar (2100) ", "Foo v. Bar (1599) ", "Foo\nv. Bar, ", "v. Bar, ", " v. Bar, ", "A v. B, 1 U.S. 1, ", "Adarand, ", "Adarand ", "Adarand, 515 "]
 CITE = ["1 U.S. 1", "1 U.S. at 5", "1 U.S., at 5", "2 F.2d 2", "Id.", "id.,", "Ibid.", "supra", "supra,", "42 U.S.C. § 1983", "1 Minn. L. Rev. 1", "1 U.S. ___", "1 U. S. 1", "1 U.S. at xii"]
-POST = ["", ".", " foo bar.", ", 5", ", 5 foo", ", at 5-6.", " (1999)", " (2d Cir. 1999)", ", 5 (1999) (overruling x)", " (overruling (x) y) z)", ", 2 S. Ct. 2, 3 (1999)", " at 5 foo", ", at 12, § 4.", " (West 1999)", ", 5 (2100)", ", 5 (1599)", " (1600)", ", at 3 (overruling xyz)", "-6.", ", 5-6; id. at 7", " (a)(2) (West Supp. May 2, 1999) (x)", ", 12 (1999) (x", " at 5\nfoo", ", at 5, 6, 7.", " [1999]", ", n. 5 (1999)"]
+POST = ["", ".", " foo bar.", ", 5", ", 5 foo", ", at 5-6.", " (1999)", " (2d Cir. 1999)", ", 5 (1999) (overruling x)", " (overruling (x) y) z)", " (1999) ()", " (1999) (1991 Term)", ", 2 S. Ct. 2, 3 (1999)", " at 5 foo", ", at 12, § 4.", " (West 1999)", ", 5 (2100)", ", 5 (1599)", " (1600)", ", at 3 (overruling xyz)", "-6.", ", 5-6; id. at 7", " (a)(2) (West Supp. May 2, 1999) (x)", ", 12 (1999) (x", " at 5\nfoo", ", at 5, 6, 7.", " [1999]", ", n. 5 (1999)"]
 TAIL = ["", " Id. at 5.", " Then 2 F.2d 2 (2005) x.", " The court then cited 2 F.2d 2 again."]
 
 
